@@ -39,8 +39,9 @@ class RowN(DataRowModel):
 """
 MODNAME = "c11_scratch_models"
 DEFINED = ["RowM", "RowN"]
-INDEX_FLAT = ["type", "sheet_name", "new_name", "data_model", "operation.type", "operation.expression", "operation.order"]
-INDEX_PACKED = ["type", "sheet_name", "new_name", "data_model", "operation"]
+INDEX_FLAT = ["type", "sheet_name", "new_name", "data_model", "operation.type", "operation.expression", "operation.order", "data_sheet"]
+INDEX_PACKED = ["type", "sheet_name", "new_name", "data_model", "operation", "data_sheet"]
+TEMPLATE = [["row_id", "type", "from", "message_text"], ["", "send_message", "start", "v{{x}}n{{name}}"]]
 
 FILTER_EXPRS = ["x > 2", "x >= 3", "name == 'a'", "x % 2 == 0", "len(name) > 1", "name in ['a', 'b']",
                 "x == 3 or name == 'b'", "not name", "True", "False", "ID != 'r2'", "name.lower() == 'a'",
@@ -131,7 +132,7 @@ def gen_case(rng, malformed):
                 if not row["op"]:
                     row["op"] = "concat"
             elif what == "unknownop":
-                row["op"] = rng.choice(["Concat", "FILTER", "sorted", "merge", "Sort", "filter "[:rng.choice([6, 7])] + "x"])
+                row["op"] = rng.choice(["sorted", "merge", "filterx", "union", "x"])
                 row["new"] = row["new"] or "d1"
             elif what == "bogusdm":
                 row["dm"] = rng.choice(["Bogus", "rowm", "RowM2"])
@@ -173,7 +174,7 @@ class Scratch:
         sys.modules.pop(MODNAME, None)
         shutil.rmtree(self.base, ignore_errors=True)
 
-    def render(self, case, upto):
+    def render(self, case, upto, flow_from=None):
         self.n += 1
         d = os.path.join(self.base, f"case{self.n}")
         os.mkdir(d)
@@ -187,17 +188,24 @@ class Scratch:
                         parts.append("expression;" + r["expr"])
                     if r["op"] and r["order"]:
                         parts.append("order;" + r["order"])
-                    w.writerow(["data_sheet", ";".join(r["names"]), r["new"], r["dm"], "|".join(parts)])
+                    w.writerow(["data_sheet", ";".join(r["names"]), r["new"], r["dm"], "|".join(parts), ""])
+                if flow_from:
+                    w.writerow(["create_flow", "tpl", "", "", "", flow_from])
             else:
                 w.writerow(INDEX_FLAT)
                 for r in case["index"][:upto]:
-                    w.writerow(["data_sheet", ";".join(r["names"]), r["new"], r["dm"], r["op"], r["expr"], r["order"]])
+                    w.writerow(["data_sheet", ";".join(r["names"]), r["new"], r["dm"], r["op"], r["expr"], r["order"], ""])
+                if flow_from:
+                    w.writerow(["create_flow", "tpl", "", "", "", "", "", flow_from])
         for name, sh in case["sheets"].items():
             with open(os.path.join(d, name + ".csv"), "w", newline="") as f:
                 w = csv.writer(f)
                 w.writerow(["ID", "x:int" if sh["annotated"] else "x", "name"])
                 for r in sh["rows"]:
                     w.writerow(r)
+        if flow_from:
+            with open(os.path.join(d, "tpl.csv"), "w", newline="") as f:
+                csv.writer(f).writerows(TEMPLATE)
         return d
 
 
@@ -229,6 +237,21 @@ def impl_saved(scr, case):
         with open(out) as f:
             disk = json.load(f)
         return ret, disk
+    try:
+        return run_cli_mode(go)
+    finally:
+        shutil.rmtree(d, ignore_errors=True)
+
+
+def impl_flows(scr, case, sheet):
+    """(flow name, message text) of the flows create_flows instantiates from `sheet`, in output order"""
+    from rpft.converters import create_flows
+
+    d = scr.render(case, len(case["index"]), flow_from=sheet)
+
+    def go():
+        out = create_flows([d], None, "csv", data_models=MODNAME)
+        return [(f["name"], f["nodes"][0]["actions"][0]["text"]) for f in out["flows"]]
     try:
         return run_cli_mode(go)
     finally:
@@ -404,19 +427,33 @@ def oracle_step(case, k, prev, cur):
             return bad
         keyof = {i: e[1] for (i, _), e in zip(src, ev)}
         pos = {i: n for n, (i, _) in enumerate(src)}
-        desc = row["order"].lower() == "descending"
+        # the property says "reversed for `descending`": the exact word decides; for a word that
+        # matches only case-insensitively ("Descending") either direction is accepted (the code
+        # lower-cases it; the model follows the code through the regenerated table)
+        if row["order"] == "descending":
+            dirs = [True]
+        elif row["order"].lower() == "descending":
+            dirs = [True, False]
+        else:
+            dirs = [False]
         if sorted(map(repr, res)) != sorted(map(repr, src)):
             bad.append(("sort-permutation", f"step {k}: sort result {ids(res)} is not a reordering of {ids(src)}"))
         else:
             try:
-                for (a, _), (b, _) in zip(res, res[1:]):
-                    ka, kb = keyof[a], keyof[b]
-                    if (ka < kb) if desc else (kb < ka):
-                        bad.append(("sort-order", f"step {k}: sort {row['expr']!r} order={row['order']!r}: {a} (key {ka!r}) before {b} (key {kb!r})"))
-                        break
-                    if not (ka < kb) and not (kb < ka) and pos[a] > pos[b]:
-                        bad.append(("sort-stability", f"step {k}: sort {row['expr']!r} order={row['order']!r}: equal keys {a},{b} not in source order {ids(src)} -> {ids(res)}"))
-                        break
+                found = []
+                for desc in dirs:
+                    f = None
+                    for (a, _), (b, _) in zip(res, res[1:]):
+                        ka, kb = keyof[a], keyof[b]
+                        if (ka < kb) if desc else (kb < ka):
+                            f = ("sort-order", f"step {k}: sort {row['expr']!r} order={row['order']!r}: {a} (key {ka!r}) before {b} (key {kb!r})")
+                            break
+                        if not (ka < kb) and not (kb < ka) and pos[a] > pos[b]:
+                            f = ("sort-stability", f"step {k}: sort {row['expr']!r} order={row['order']!r}: equal keys {a},{b} not in source order {ids(src)} -> {ids(res)}")
+                            break
+                    found.append(f)
+                if all(found):
+                    bad.append(found[0])
             except TypeError:
                 pass
     return bad
@@ -462,7 +499,88 @@ def check_case(scr, case):
             problems.append(("export-error", f"save_data_sheets failed although the index is processed: {saved[1:]}"))
         else:
             problems += oracle_saved(states[-1][1], saved[1])
+        # flows instantiated from the sheet the last row registered: one per row, in the sheet's order
+        last = case["index"][-1]
+        tgt = last["new"] or last["names"][0]
+        rows = states[-1][1].get(tgt)
+        if rows is not None and tgt != "tpl":
+            fl = impl_flows(scr, case, tgt)
+            want = [(f"tpl - {i}", f"v{d['x']}n{d['name']}") for i, d in rows]
+            if fl[0] != "ok":
+                problems.append(("flows-error", f"create_flows over sheet {tgt!r} failed: {fl[1:]}"))
+            elif fl[1] != want:
+                problems.append(("flows-from-derived", f"flows instantiated from {tgt!r}: {fl[1]} expected {want}"))
     return states, saved, problems
+
+
+def diverge(mproj, iproj):
+    """None when model and implementation agree step by step up to the first common error;
+    ('lenient', k) when the model rejects row k and the implementation accepts it;
+    ('disagree', k) when the registries after row k differ or the implementation rejects a
+    row the model accepts"""
+    for k in range(max(len(mproj), len(iproj))):
+        a = mproj[k] if k < len(mproj) else None
+        b = iproj[k] if k < len(iproj) else None
+        if a is None or b is None:
+            return ("disagree", k)   # cannot happen: both lists end at their first error
+        if a[0] == "err" and b[0] == "err":
+            return None
+        if a[0] == "err":
+            return ("lenient", k)
+        if b[0] == "err" or a != b:
+            return ("disagree", k)
+    return None
+
+
+# ------------------------------------------------------------------ shrinking
+def shrink(case, still_fails, budget=120):
+    """greedy delta debugging on index rows, sheets, sheet rows; keeps `still_fails` true"""
+    import copy
+
+    cur = copy.deepcopy(case)
+    spent = 0
+    progress = True
+    while progress and spent < budget:
+        progress = False
+        cands = []
+        for i in reversed(range(len(cur["index"]))):
+            if len(cur["index"]) > 1:
+                c = copy.deepcopy(cur)
+                del c["index"][i]
+                cands.append(c)
+        used = {n for r in cur["index"] for n in r["names"]}
+        for n in list(cur["sheets"]):
+            if n not in used:
+                c = copy.deepcopy(cur)
+                del c["sheets"][n]
+                cands.append(c)
+        for n, sh in cur["sheets"].items():
+            for i in reversed(range(len(sh["rows"]))):
+                c = copy.deepcopy(cur)
+                del c["sheets"][n]["rows"][i]
+                cands.append(c)
+        for i, r in enumerate(cur["index"]):
+            if len(r["names"]) > 1:
+                for j in range(len(r["names"])):
+                    c = copy.deepcopy(cur)
+                    del c["index"][i]["names"][j]
+                    cands.append(c)
+        if cur.get("packed"):
+            c = copy.deepcopy(cur)
+            c["packed"] = False
+            cands.append(c)
+        for c in cands:
+            if spent >= budget:
+                break
+            spent += 1
+            try:
+                if still_fails(c):
+                    cur = c
+                    progress = True
+                    break
+            except Exception:
+                pass
+    return cur
 
 
 # ------------------------------------------------------------------ classification for coverage
@@ -571,8 +689,19 @@ def run(ctx):
     scr = Scratch()
     nontrivial = set()
     samples = []
+    shrunk = {}
+
+    def projections(c):
+        """(model, implementation) projections of a case: per step ok+registry or err"""
+        rq, tok, supported = model_request(c)
+        ms = dec_model_scan(m.ask(rq), tok)
+        st, _, _ = check_case(scr, c)
+        return ([("ok", dict(x[1])) if x[0] == "ok" else ("err",) for x in ms],
+                [("ok", dict(x[1])) if x[0] == "ok" else ("err",) for x in st], st)
+
     dist = {"chains": 0, "malformed_stream": 0, "chains_with_error": 0, "steps_run": 0, "ops": {}, "chain_len": {},
-            "rows_per_source": {}, "features": {}, "model_err_codes": {}, "packed_layout": 0, "unsupported_key": 0}
+            "rows_per_source": {}, "features": {}, "model_err_codes": {}, "packed_layout": 0, "unsupported_key": 0,
+            "impl_accepts_what_model_rejects": 0}
     try:
         for n in range(n_cases):
             malformed = rng.random() < 0.15
@@ -598,7 +727,12 @@ def run(ctx):
             if len(samples) < 4 and len(fs) >= 3:
                 samples.append(case)
             for key, text in problems[:3]:
-                v.failing_input(key, text, dict(fn="chain", case=case))
+                shrunk[key] = shrunk.get(key, 0) + 1
+                small = case
+                if shrunk[key] <= 2:
+                    small = shrink(case, lambda c, key=key: any(k == key for k, _ in check_case(scr, c)[2]))
+                    text = next((t for k, t in check_case(scr, small)[2] if k == key), text)
+                v.failing_input(key, text, dict(fn="chain", case=small))
             # ---- correspondence with the extracted model
             if m:
                 rq, tok, supported = model_request(case)
@@ -611,24 +745,38 @@ def run(ctx):
                         dist["model_err_codes"][s[1]] = dist["model_err_codes"].get(s[1], 0) + 1
                 mproj = [("ok", dict(s[1])) if s[0] == "ok" else ("err",) for s in ms]
                 iproj = [("ok", dict(s[1])) if s[0] == "ok" else ("err",) for s in states]
-                if mproj != iproj:
-                    k = next((i for i, (a, b) in enumerate(zip(mproj, iproj)) if a != b), min(len(mproj), len(iproj)))
+                dv = diverge(mproj, iproj)
+                if dv and dv[0] == "lenient":
+                    # the implementation accepts a row the model rejects: the property does not say
+                    # when an operation must be refused (that is C15), so this is recorded, not reported
+                    dist["impl_accepts_what_model_rejects"] += 1
+                elif dv:
+                    small = case
+                    if len(ctx.disagreements) < 3:
+                        small = shrink(case, lambda c: (lambda p: (diverge(p[0], p[1]) or ("",))[0] == "disagree")(projections(c)))
+                        mproj, iproj, states = projections(small)
+                        dv = diverge(mproj, iproj) or dv
+                    k = dv[1]
                     ctx.disagree(f"registry after step {k} (ordered ids and row dicts of every registered sheet)",
-                                 case, repr(mproj[k] if k < len(mproj) else None),
+                                 small, repr(mproj[k] if k < len(mproj) else None),
                                  repr(states[k] if k < len(states) else None))
-                elif saved is not None and saved[0] == "ok":
+                if not dv and saved is not None and saved[0] == "ok":
                     out = parse_sexp(m.ask(model_request(case, fn=2)[0]))
                     want = {dec_str(nm): [tok[t] for t in ts] for nm, ts in out[1]} if out[0] == 0 else None
                     got = {nm: sh.get("rows") for nm, sh in saved[1][0].get("sheets", {}).items()}
                     if want != got:
                         ctx.disagree("save_data_sheets output vs model data_sheets_to_dict", case, repr(want), repr(got))
-        # ---- the order word (is_descending) on model and implementation-equivalent expression
+        # ---- the order word: the model's is_descending against what the implementation does
         if m:
-            words = sorted(set(ORDERS + ["descending ", "DeScEnDiNg", "descendin", "descendingg", "ascending", "d"]))
+            words = sorted(set(ORDERS + ["DeScEnDiNg", "descendin", "descendingg", "ascending", "d", "dESCENDING"]))
             outs = m.ask_many([f"(111 7 {enc_str(w)})" for w in words])
             for w, o in zip(words, outs):
-                if (o == "1") != (w.lower() == "descending"):
-                    ctx.disagree("is_descending", w, o, w.lower() == "descending")
+                c = {"sheets": {"s1": {"annotated": True, "rows": [["r1", 1, "a"], ["r2", 2, "b"]]}}, "packed": False,
+                     "index": [{"names": ["s1"], "new": "d1", "dm": "RowM", "op": "sort", "expr": "x", "order": w}]}
+                r = impl_registry(scr, c, 1)
+                got = r[0] == "ok" and ids(r[1].get("d1", [])) == ["r2", "r1"]
+                if (o == "1") != got:
+                    ctx.disagree("is_descending (model) vs direction of a two-row sort (implementation)", w, o, repr(r))
         dist["pure_op_cases"] = pure_ops(ctx, (40000 if thorough else 4000) * ctx.scale)
         v.coverage["evaluations"] += dist["pure_op_cases"]
     finally:
